@@ -304,7 +304,9 @@ def _rebase(snap):
 def vcfpartition_cases(ctx, work, vcfs):
     from bio2zarr import vcf_utils
     rng = ctx.rng
-    for kind, val in (("-n", rng.choice([1, 3, 7])), ("-s", rng.choice(["200", "1KB", "5MiB"]))):
+    # -n is the total over all files: fewer parts than files, exactly as many, and more
+    cases = [("-n", v) for v in sorted({1, max(1, len(vcfs) - 1), len(vcfs), rng.choice([3, 7])})] + [("-s", rng.choice(["200", "1KB", "5MiB"]))]
+    for kind, val in cases:
         r = invoke([*vcfs, kind, val], main="vcfpartition")
         exp = []
         for p in vcfs:
@@ -360,7 +362,8 @@ def run(ctx):
             vcf2zarr.explode(icf, [vcf], worker_processes=0)
             mapping_cases(ctx, work, vcf, icf)
             end_to_end(ctx, work, spec, vcf)
-            vcfpartition_cases(ctx, work, [vcf, vcf2] if k % 2 == 0 else [vcf])
+            vcf3 = vcfgen.materialise(spec, pathlib.Path(work) / f"inc{k}", "vcf.gz+tbi", block_size=500)
+            vcfpartition_cases(ctx, work, [vcf, vcf2, vcf3] if k % 2 == 0 else [vcf])
             plink_case(ctx, work)
         if ctx.thorough:
             env = dict(os.environ)
